@@ -82,23 +82,182 @@ def focus_invalid(proj, rng, steps):
     steps.append(H.step_cancel(proj))
 
 
-FOCI = {"C05": focus_c05, "invalid": focus_invalid}
+def respell_protect(proj, rng):
+    """protect entries spelled differently from the outputs they protect (relative, ./, d/../, absolute, absolute unnormalised)"""
+    import gen
+    for t in proj.targets:
+        outs = gen.flatten_shape(t["outputs"])
+        prot = []
+        for o in outs:
+            if rng.random() < 0.35:
+                base = os.path.normpath(o)
+                c = rng.randint(0, 4)
+                prot.append([base, "./" + base, "q/../" + base, os.path.join(proj.dir, base),
+                             os.path.join(proj.dir, "z", "..", base)][c])
+        t["protect"] = prot
+    proj.write()
+
+
+def focus_c15(proj, rng, steps):
+    names = [t["name"] for t in proj.targets]
+    respell_protect(proj, rng)
+    proj.put_file("unrelated.txt")
+    proj.put_file(".gwf/logs/%s.stdout" % names[0])
+    for _ in range(rng.randint(1, 3)):
+        pats = rand_patterns(rng, names) if rng.random() < 0.5 else []
+        force = rng.random() < 0.6
+        steps.append(H.step_clean(proj, pats, all_=rng.random() < 0.5, force=force,
+                                  answer=None if force else rng.choice(["y\n", "n\n", ""])))
+    steps.append(H.step_status(proj))
+
+
+def focus_c16(proj, rng, steps):
+    names = [t["name"] for t in proj.targets]
+    proj.put_file("unrelated.txt")
+    if rng.random() < 0.3 and os.path.exists(os.path.join(proj.dir, "src0")):
+        proj.put_file("src0", stamp=H.BASE_T + 10_000_000)     # a source dated in the future
+    if rng.random() < 0.5:
+        steps.append(H.step_touch(proj, rand_patterns(rng, names) if rng.random() < 0.5 else []))
+        steps.append(H.step_status(proj))
+    else:
+        steps.append(H.step_touch_then_status(proj, rand_patterns(rng, names) if rng.random() < 0.4 else []))
+    if rng.random() < 0.4:
+        steps.append(H.step_touch_then_status(proj))
+
+
+def focus_c17(proj, rng, steps):
+    names = [t["name"] for t in proj.targets]
+    r = rng.random()
+    if r < 0.5:
+        steps.append(H.step_cancel(proj, rand_patterns(rng, names), fail_nth=rng.choice([None, None, 1, 2])))
+    elif r < 0.75:
+        steps.append(H.step_cancel(proj, [], force=True, fail_nth=rng.choice([None, 1, 2, 3])))
+    else:
+        steps.append(H.step_cancel(proj, [], force=False, answer=rng.choice(["y\n", "n\n", ""])))
+    steps.append(H.step_status(proj))
+    steps.append(H.step_run(proj))
+    steps.append(H.step_status(proj))
+
+
+def edit_spec(proj, rng):
+    t = rng.choice(proj.targets)
+    t["spec"] = t["spec"] + "# edit %d\n" % rng.randint(0, 999)
+    proj.write()
+
+
+def focus_c18(proj, rng, steps):
+    names = [t["name"] for t in proj.targets]
+    for _ in range(rng.randint(5, 12)):
+        r = rng.random()
+        pats = rand_patterns(rng, [t["name"] for t in proj.targets], allow_nomatch=False) if rng.random() < 0.4 else []
+        if r < 0.22:
+            steps.append(H.step_run(proj, pats, reject_nth=rng.choice([None, None, None, 1, 2])))
+        elif r < 0.32:
+            steps.append(H.step_dry(proj, pats))
+        elif r < 0.42:
+            steps.append(H.step_status(proj))
+        elif r < 0.54:
+            steps.append(H.step_touch(proj, pats))
+        elif r < 0.66:
+            steps.append(H.step_clean(proj, pats, all_=rng.random() < 0.5, force=True))
+        elif r < 0.82:
+            edit_spec(proj, rng)
+        elif r < 0.92:
+            proj.config["use_spec_hashes"] = not proj.hashing
+            proj.write()
+        elif len(proj.targets) > 1:
+            # remove or rename a target: its record stays in the hash file and must not disturb the others
+            t = rng.choice(proj.targets)
+            if rng.random() < 0.5:
+                proj.targets.remove(t)
+                import gen
+                outs = set(os.path.normpath(o) for o in gen.flatten_shape(t["outputs"]))
+                for u in proj.targets:
+                    u["inputs"] = [i for i in gen.flatten_shape(u["inputs"]) if os.path.normpath(i) not in outs]
+            else:
+                t["name"] = t["name"] + "_r"
+            proj.write()
+    steps.append(H.step_status(proj))
+
+
+def drain(proj, rng, ok=True):
+    """the cluster executes every pending/running job in a random legal order; a successful job
+    (re)creates its target's declared outputs with a fresh time stamp"""
+    import gen
+    by_name = {t["name"]: t for t in proj.targets}
+    for _ in range(200):
+        st = proj.cluster.read()
+        live = [j for j in st["jobs"].values() if j["state"] in ("pending", "running")]
+        if not live:
+            return
+        done_ok = {j["id"] for j in st["jobs"].values() if j["state"] == "completed"}
+        gone = {j["id"] for j in st["jobs"].values() if j["state"] not in ("pending", "running")}
+        runnable = [j for j in live if all((d in done_ok) or (d not in st["jobs"]) or (j["kind"] == "hold" and d in gone) for d in j["deps"])]
+        if not runnable:
+            # dependencies failed/cancelled: the scheduler never starts these (afterok/done): cancel them
+            for j in live:
+                st["jobs"][j["id"]]["state"] = "cancelled"
+            proj.cluster.write(st)
+            return
+        j = rng.choice(runnable)
+        st["jobs"][j["id"]]["state"] = "completed" if ok else "failed"
+        proj.cluster.write(st)
+        if ok and j["name"] in by_name:
+            for o in gen.flatten_shape(by_name[j["name"]]["outputs"]):
+                proj.put_file(os.path.normpath(o))
+
+
+def focus_c06(proj, rng, steps):
+    import gen
+    # "from any project state in which no job is pending or running"
+    st = proj.cluster.read()
+    for j in st["jobs"].values():
+        if j["state"] in ("pending", "running"):
+            j["state"] = rng.choice(["failed", "cancelled", "completed"])
+    proj.cluster.write(st)
+    pats = rand_patterns(rng, [t["name"] for t in proj.targets], allow_nomatch=False) if rng.random() < 0.3 else []
+    steps.append(H.step_run(proj, pats))
+    drain(proj, rng)
+    steps.append(H.step_status(proj))
+    steps[-1]["converged_after"] = len(steps) - 2
+    steps.append(H.step_run(proj, pats))
+    steps[-1]["noop_after"] = True
+    drain(proj, rng)
+    for _ in range(rng.randint(1, 2)):
+        srcs = [s for s in ("src0", "src1") if os.path.exists(os.path.join(proj.dir, s))]
+        outs = [os.path.normpath(o) for t in proj.targets for o in gen.flatten_shape(t["outputs"])
+                if os.path.exists(os.path.join(proj.dir, os.path.normpath(o)))]
+        if srcs and (rng.random() < 0.5 or not outs):
+            proj.put_file(rng.choice(srcs))                       # modify one source file
+        elif outs:
+            os.remove(os.path.join(proj.dir, rng.choice(outs)))  # delete one output
+        steps.append(H.step_dry(proj))
+        steps.append(H.step_run(proj))
+        drain(proj, rng)
+        steps.append(H.step_status(proj))
+
+
+FOCI = {"C05": focus_c05, "invalid": focus_invalid, "C15": focus_c15, "C16": focus_c16, "C17": focus_c17,
+        "C18": focus_c18, "C06": focus_c06}
 
 
 def run_history(job):
     seed, focus, tier = job
-    rng = random.Random("%s-%s" % (focus, seed))
+    backend = "slurm"
+    if ":" in focus:
+        focus, backend = focus.split(":")
+    rng = random.Random("%s-%s-%s" % (focus, backend, seed))
     root = common.scratch_dir("gwfverif-hist-")
     steps = []
     try:
         desc = H.gen_cli_project(rng, nmax=5 if tier == "quick" else 9)
-        proj = H.materialise_project(root, desc, rng)
+        proj = H.materialise_project(root, desc, rng, backend=backend)
         H.seed_cluster_history(proj, rng)
         FOCI[focus](proj, rng, steps)
         info = {"targets": proj.targets, "hashing": proj.hashing}
-        return {"seed": seed, "focus": focus, "steps": steps, "info": info, "error": None}
+        return {"seed": seed, "focus": focus + ":" + backend, "steps": steps, "info": info, "error": None}
     except Exception:  # noqa
-        return {"seed": seed, "focus": focus, "steps": steps, "info": None, "error": traceback.format_exc()[-1500:]}
+        return {"seed": seed, "focus": focus + ":" + backend, "steps": steps, "info": None, "error": traceback.format_exc()[-1500:]}
     finally:
         shutil.rmtree(root, ignore_errors=True)
 
@@ -122,6 +281,25 @@ def agree_check(steps, idx):
         inflight = [n for n, s in rows.items() if s in ("submitted", "running", "completed")]
         if set(inflight) & set(ran):
             bad.append(("C05", "targets shown submitted/running/completed were submitted: %r" % sorted(set(inflight) & set(ran))))
+    return bad
+
+
+def c06_check(steps, idx, targets):
+    """after a run whose jobs all succeeded: every target that declares outputs is completed, and the
+    following run submits only targets without outputs"""
+    import gen
+    bad = []
+    p = steps[idx]
+    has_out = {t["name"]: bool(gen.flatten_shape(t["outputs"])) for t in targets}
+    if "converged_after" in p and p["code"] == 0 and not steps[p["converged_after"]]["patterns"]:
+        rows = H.parse_status_table(p["out"])
+        wrong = sorted(n for n, s in rows.items() if has_out.get(n) and s != "completed")
+        if wrong:
+            bad.append(("C06", "after a fully successful run these targets with outputs are not completed: %r (%r)" % (wrong, rows)))
+    if p.get("noop_after") and p["code"] == 0 and not p["patterns"]:
+        again = sorted(s["name"] for s in p["subs"] if has_out.get(s["name"]))
+        if again:
+            bad.append(("C06", "re-run after convergence submitted targets that declare outputs: %r" % again))
     return bad
 
 
@@ -154,6 +332,9 @@ def run_prop(chk, prop, foci, n_hist, rule, assumptions, nontrivial):
             if "agree_with" in s:
                 for (p, msg) in agree_check(r["steps"], idx):
                     disc.append((p, idx, "agree", msg, ""))
+            if "converged_after" in s or s.get("noop_after"):
+                for (p, msg) in c06_check(r["steps"], idx, r["info"]["targets"]):
+                    disc.append((p, idx, "converge", msg, ""))
         chk.count("history")
         chk.count("steps", len(r["steps"]))
         kinds = [s["kind"] for s in r["steps"]]
